@@ -164,6 +164,11 @@ example : candidates (α := Unit) ⟨fun _ => false, fun _ => .err⟩ (strBytes 
 example : candidates (α := Unit) ⟨fun _ => false, fun _ => .err⟩ (strBytes "x/authorized_keys2") (strBytes "ssh-rsa AAAA")
     Gen.filetypes = .ok ["SSHPublicKey"] := by decide
 example : candidates (α := Unit) ⟨fun _ => true, fun _ => .err⟩ (strBytes "k") (strBytes "-----BEGIN PGP PUBLIC KEY BLOCK-----")
-    Gen.filetypes = .ok ["PGPPublicKey", "PEMFile", "UUIDValue", "ASN1File", "Base64ASN1File", "JWTData", "PEMFile"] := by decide
+    Gen.filetypes = .ok ["PGPPublicKey", "PEMFile", "UUIDValue", "JWTData", "Base64ASN1File", "ASN1File", "PEMFile"] := by decide
+
+/-- among the content sniffers the text formats precede the raw ASN.1 one (a 123-byte JWT and the 70-character base64 of
+    a 52-byte DER object are also single TLV elements: findings D16 / D67) -/
+theorem text_sniffers_before_asn1 :
+    (Gen.filetypes.filterMap (·.identify)) = ["IsUUID", "IsJWT", "IsBase64ASN1", "IsASN1", "IsMixedPEM"] := by decide
 
 end WhatIs.C07
